@@ -98,6 +98,11 @@ fn trips<T: Serialize + DeserializeOwned>(v0: &T) -> (Vec<String>, Vec<Option<T>
     texts.push(t3);
     vals.push(v1);
     vals.push(v2);
+    // a second reader: through an owned serde_json::Value (what a caller who stores responses as JSON values uses); it
+    // hands strings over OWNED (visit_string), maps as maps — other Visitor methods than the text reader's
+    let vv: Option<T> = serde_json::to_value(v0).ok().and_then(|val| serde_json::from_value(val).ok());
+    texts.push(vv.as_ref().map(|v| serde_json::to_string(v).unwrap_or_else(|_| "SERIALIZE-FAILED".into())).unwrap_or_default());
+    vals.push(vv);
     (texts, vals)
 }
 
@@ -605,6 +610,13 @@ impl CaseInput for RtCase {
                         oracle.push(("C16:accessors".into(), format!("accessors differ after one round trip through {:?}: before {:?}, after {:?} (value from {what})", r.texts[0], r.tuples[0], r.tuples[1])));
                     } else if r.tuples[2] != r.tuples[1] {
                         oracle.push(("C16:accessors".into(), format!("accessors differ after the second round trip through {:?}", r.texts[1])));
+                    }
+                    if r.tuples[3].is_none() {
+                        oracle.push(("C16:reparse".into(), format!("the value written with serde_json::to_value is rejected by serde_json::from_value (value from {what})")));
+                    } else if r.tuples[3] != r.tuples[0] {
+                        oracle.push(("C16:accessors".into(), format!("accessors differ after one round trip through an owned serde_json::Value: before {:?}, after {:?} (value from {what})", r.tuples[0], r.tuples[3])));
+                    } else if r.texts[3] != r.texts[0] {
+                        oracle.push(("C16:idempotent".into(), format!("serialisation after a round trip through an owned serde_json::Value {:?} differs from the first {:?}", r.texts[3], r.texts[0])));
                     }
                     if r.texts[1] != r.texts[0] {
                         oracle.push(("C16:idempotent".into(), format!("second serialisation {:?} differs from the first {:?}", r.texts[1], r.texts[0])));
